@@ -31,7 +31,7 @@ package rdb
 //   firstIter  the scan loop is in its first iteration
 //@ func util.Xrecover(err, appendErrs)
 //@   trusted frame: turns a panic into an error (no panic: nothing happens)
-//@ func Loader.newParser
+//@ func RdbReader.newParser
 //@   trusted here: builds the object parser of the next value or chunk
 //@   ensures parser: result != nil
 
